@@ -344,7 +344,7 @@ pub fn conversion_cfgs(tier: &str) -> Vec<Cfg> {
 pub fn native_maps(seed: u64, tier: &str) -> BTreeMap<String, Vec<(Vec<AbsObj>, String)>> {
     let mut rng = StdRng::seed_from_u64(seed ^ 0xd15);
     let mut out = BTreeMap::new();
-    let n_maps = if tier == "thorough" { 6 } else { 2 };
+    let n_maps = if tier == "thorough" { 6 } else { 3 };      // 9, 2 and 0 objects (the empty map has its own early returns)
     for mode in ["osu", "taiko", "catch", "mania"] {
         let mut v = Vec::new();
         for i in 0..n_maps {
